@@ -16,7 +16,7 @@ from . import common as C
 OCAML = []
 GO = ["srcfacts", "c17race"]
 PROP = "props/C17.v"
-PROOFS = ["proofs/RaceSound.v", "proofs/RaceEntries.v", "proofs/RaceExamples.v",
+PROOFS = ["proofs/RaceSound.v", "proofs/RaceEntries.v", "proofs/RaceInfer.v", "proofs/RaceExamples.v",
           "model/Race.v", "model/RacePolicy.v", "gen/AccessTable.v"]
 WORK = os.path.join(C.BUILD, "c17")
 SIDECAR = os.path.join(WORK, "sites.json")
@@ -47,11 +47,9 @@ def regenerate():
                    env=C.GOENV, timeout=600)
     if rc != 0:
         return False, out
-    dst = os.path.join(C.COQ, "gen", "AccessTable.v")
-    with C.Lock("coq"):
-        os.makedirs(os.path.dirname(dst), exist_ok=True)
-        if not os.path.exists(dst) or not filecmp.cmp(tmp, dst, shallow=False):
-            shutil.copyfile(tmp, dst)
+    tmp2 = C.gen_tmp("AccessTable.v")
+    shutil.copyfile(tmp, tmp2)
+    C.install_gen("AccessTable.v", tmp2)     # atomically, only if changed; put back after a run on a scratch tree
     return True, out.strip()
 
 
@@ -380,6 +378,9 @@ def run(run):
     fails_all = [parse_failure(l) for l in rep.get("c17_failures_all", [])]
     cov["hbvia_pairs_trusted"] = rep.get("c17_hbvia", [])
     cov["policy_exceptions"] = exceptions
+    # fields the hand-written policy does not name (renamed / new fields): the discipline inferred from the access table
+    # and checked like a declared one (coq/model/Race.v 3b; C17_inferred_checked, C17_every_field_classified)
+    cov["inferred_policies"] = dict(x.split(" -> ", 1) for x in rep.get("c17_inferred", []) if " -> " in x)
     if rep.get("c17_stale_policy"):
         run.notes.append("policy entries that match no field of the current source (harmless): " +
                          ", ".join(rep["c17_stale_policy"]))
@@ -419,7 +420,7 @@ def run(run):
     targets = sorted({TARGET_OF.get(s, "all") for s in failing_structs})
     if not targets or "all" in targets:
         targets = ["all"]
-    budget = 40 if run.tier == "quick" else 600
+    budget = run.scaled(40) if run.tier == "quick" else 600     # anchor drift: escalated budget
     if fails:
         budget = int(budget * 1.5)
     stats, found, samples, crashes = dynamic_leg(run, budget, targets, exceptions)
